@@ -41,6 +41,7 @@ DOCS = [
     ("textarea", ["\nab</textarea>"]),
     # bytes, declaration beyond the 1024-byte prescan window: tentative windows-1252 -> utf-8, reset() and re-parse
     ("", b"<!DOCTYPE html><!--" + b"x" * 1030 + b"--><p>x<meta charset=utf-8>y</p><table>z"),
+    ("", ["<!DOCTYPE html><table>a\x00b</table>"]),      # the tokenizer queues two tokens at once (error + NUL)
 ]
 
 
@@ -245,6 +246,12 @@ def _run(ctx):
                 "builder (etree, dom) and compared with the machine AND with a brand-new object; traces: random call "
                 "histories. non-trivial = history in which some call starts with a persistent field that differs from "
                 "a new object's")
+    ctx.assumptions = ["'fresh interpreter' is a fresh python subprocess (seeded subset of the wide calls)",
+                       "thread interleavings are enforced at read() granularity only (CPython cannot be made to switch between "
+                       "two given bytecodes); finer interleavings are exercised by unsynchronised threads with a 10 us switch "
+                       "interval, not enumerated",
+                       "outside the vocabulary of Lifecycle.tla the machine does not predict trees: wide inputs are judged on the "
+                       "recorded persistent fields and on exact reused / brand-new / seeded-brand-new comparisons"]
     # 0. the spec's document table is what the real tokenizer delivers
     r = ctx.tlc("MC_Lifecycle", mc_cfg(0, [1], False, True, [], ("ThmDocs",)), "mc-docs")
     spec_docs = [rec["docs"] for rec in r.records if isinstance(rec, dict) and "docs" in rec]
@@ -362,8 +369,23 @@ def wide_doc(ctx, pool):
     return corpus.soup(rng)
 
 
+ABORTERS = ["<!x>", "\x00", "&bogus ", "<a b='c'd>", "</p>", "<tr><td></b>", "<b>", "<!DOCTYPE y>", "<svg></p>"]
+
+
+def table_abort_call(rng):
+    """text pending in table context when the call is aborted (strict error or source failure)"""
+    pre = rng.choice(["<!DOCTYPE html>", "<!DOCTYPE html><p>", "", "<!DOCTYPE html><div><b>"])
+    word = rng.choice(["SECRET", "a b", " ", "x", "\n y"])
+    mid = rng.choice(["<table>", "<table><tbody>", "<table><tr>", "<table><colgroup>", "<table><caption></caption>"])
+    if rng.random() < 0.5:
+        return {"frag": None, "chunks": [pre + mid + word + rng.choice(ABORTERS) + "z</table>"], "strict": True, "fail": 0}
+    return {"frag": None, "chunks": [pre + mid + word + "<", "i>z</i></table>"], "strict": False, "fail": 2}
+
+
 def wide_call(ctx, pool):
     rng = ctx.rng
+    if rng.random() < 0.12:
+        return table_abort_call(rng)
     text = wide_doc(ctx, pool)
     chunks = lc.chunking(rng, text) if "\r" not in text and not any(0xD800 <= ord(c) < 0xE000 for c in text) else [text]
     return {"frag": rng.choice(["div", "table", "tr", "td", "select", "textarea", "title", "svg", "pre", "body", "html"])
